@@ -60,7 +60,7 @@ def design(rnd, n_snv, n_samples, m, refmode, tetra=False, dense=False):
         if kind == "certain":
             post = [([a, b], m)]
         elif kind == "minor":
-            c = rnd.choice([m // 16, m // 8, m // 4])
+            c = rnd.choice([m // 16, m // 8, m // 4] if m < 128 else [1, 2, m // 128, m // 16])      # m >= 128: occurrences below 0.01
             post = [([a, b], m - c), ([a, fresh()], c)]
         elif kind == "flat":
             post = [([a, b], m // 2), ([fresh(), fresh()], m // 4), ([fresh(), rnd.choice(common)], m // 4)]
